@@ -59,6 +59,11 @@ K17 = [
     (Skeleton("f08_method_object_nested_helper", {
         "main.py": "class Shape:\n    def __init__(self, {0}):\n        self.side = {0}\n    def area(self, {1}):\n        def square({2}):\n            {3} = {2} * {2}\n            return {3}\n        return square(self.side) + {1}\n    def perimeter(self):\n        return 4 * self.side\nprint(Shape(3).area(1), Shape(3).perimeter())\n"}),
      lambda files, names: dict(api="method_object", path="main.py", offset=_off(files, "main.py", "square"), name="FunObject")),
+    # the function whose body must not be rewritten ends the file without a newline / is a one-liner
+    (Skeleton("f10_use_function_body_at_file_end", {
+        "lib.py": "{1} = 3\ndef show({0}): print('v', {0} * 2)\ndef double({0}): return {0} * 2",
+        "main.py": "import lib\n{2} = 4\nlib.show({2})\nprint(lib.double({2}), {2} * 2)\n"}),
+     lambda files, names: dict(api="use_function", path="lib.py", offset=_off(files, "lib.py", "show" if choose("which", 2) else "double"))),
     # the nested helper reads a variable of the enclosing function (a closure)
     (Skeleton("f09_method_object_closure", {
         "main.py": "def outer({0}):\n    {1} = {0} + 1\n    def helper({2}):\n        return {2} * {1}\n    return helper(2)\nprint(outer(1))\n"}),
